@@ -148,6 +148,7 @@ OgreUnique<DataType, OgreAllocatorType> {
 
     #[inline(always)]
     fn drop(&mut self) {
+        #[cfg(feature = "verif")] crate::verif::point(crate::verif::UNIQUE_DROP_BEFORE);
         self.allocator.dealloc_ref(self.data_ref);
     }
 }
